@@ -2,7 +2,7 @@
    all the assumed raft safety properties), with at most a minority of nodes down at every step. Witnesses closed by
    vm_compute. Each defect was first reproduced on the real code by the harness (see props/C05/NOTES.md). *)
 From Coq Require Import List Arith NArith ZArith Bool Lia.
-From OG Require Import C05.Model.
+From OG Require Import C05.Model C05.Trunc.
 Import ListNotations.
 
 (* every prefix of the trace keeps a majority available *)
@@ -102,3 +102,59 @@ Proof. vm_compute. reflexivity. Qed.
 Theorem ack_despite_apply_error_refuted :
   exists u a, commit_result_current u a = true /\ a = false.
 Proof. exists true, false. split; reflexivity. Qed.
+
+(* (5) the tolerance timer of the truncation decision survives the loss of the leadership (today's code: a round in
+   which the node is not the leader returns before the timer is looked at). A node that led during a first, short
+   outage and gets the leadership back during a second short outage days later forces the truncation at once:
+   every member was seen alive one minute before, the tolerate time is six hours. Time in minutes. *)
+Definition stale_rounds : list round :=
+  let dn := [true; true; false] in let al := [true; true; true] in
+  [ mkRound 0 true dn [100%N; 100%N; 40%N] 90%N;        (* first outage seen as the leader: timer starts *)
+    mkRound 1 false dn [100%N; 100%N; 40%N] 90%N;       (* leadership lost *)
+    mkRound 2 false al [100%N; 100%N; 100%N] 90%N;      (* member back, group healthy: seen as a follower *)
+    mkRound 4000 false al [200%N; 200%N; 200%N] 90%N ]. (* days later, still healthy *)
+Definition stale_last : round := mkRound 4001 true [true; true; false] [200%N; 200%N; 150%N] 190%N.
+
+Theorem stale_tolerance_timer_refuted :
+  exists T L pre r idx q, clock_mono (pre ++ [r]) /\ snap_stays (pre ++ [r]) /\
+    snd (decide tcfg_current T L (tstate tcfg_current T L None pre) r) = DForce idx /\
+    In q pre /\ all_alive q = true /\ (r_now r - r_now q <= T)%Z.
+Proof.
+  exists 360%Z, (mkLay 30000 1 200), stale_rounds, stale_last, 190%N, (mkRound 4000 false [true; true; true] [200%N; 200%N; 200%N] 90%N).
+  split; [|split; [|split; [vm_compute; reflexivity|split; [right; right; right; left; reflexivity|split; [reflexivity|vm_compute; discriminate]]]]].
+  - cbn. repeat split; intros x Hx; cbn in Hx; repeat (destruct Hx as [<-|Hx]; [cbn; lia|]); contradiction.
+  - cbn. repeat split; intros _ x Hx; cbn in Hx; repeat (destruct Hx as [<-|Hx]; [cbn; discriminate|]); contradiction.
+Qed.
+
+(* the repaired rule does not force anything in that round *)
+Example stale_rounds_repaired :
+  snd (decide tcfg_repaired 360 (mkLay 30000 1 200) (tstate tcfg_repaired 360 (mkLay 30000 1 200) None stale_rounds) stale_last) = DNone.
+Proof. vm_compute. reflexivity. Qed.
+
+(* (6) the variant that never clears the timer on health (not today's code; the class of the change): a second outage
+   long after a first one that was resolved is treated as already expired although the leader itself saw the group
+   healthy in between *)
+Theorem never_cleared_timer_refuted :
+  exists T L pre r idx q, clock_mono (pre ++ [r]) /\ snap_stays (pre ++ [r]) /\
+    snd (decide tcfg_noclear T L (tstate tcfg_noclear T L None pre) r) = DForce idx /\
+    In q pre /\ r_lead q = true /\ r_snap q <> 0%N /\ all_alive q = true /\ (r_now r - r_now q <= T)%Z.
+Proof.
+  exists 360%Z, (mkLay 30000 1 200),
+         [ mkRound 0 true [true; true; false] [100%N; 100%N; 40%N] 90%N; mkRound 1 true [true; true; true] [100%N; 100%N; 100%N] 90%N;
+           mkRound 4000 true [true; true; true] [200%N; 200%N; 200%N] 190%N ],
+         (mkRound 4001 true [true; true; false] [200%N; 200%N; 150%N] 190%N), 190%N,
+         (mkRound 4000 true [true; true; true] [200%N; 200%N; 200%N] 190%N).
+  split; [|split; [|split; [vm_compute; reflexivity|split; [right; right; left; reflexivity|split; [reflexivity|split; [discriminate|split; [reflexivity|vm_compute; discriminate]]]]]]].
+  - cbn. repeat split; intros x Hx; cbn in Hx; repeat (destruct Hx as [<-|Hx]; [cbn; lia|]); contradiction.
+  - cbn. repeat split; intros _ x Hx; cbn in Hx; repeat (destruct Hx as [<-|Hx]; [cbn; discriminate|]); contradiction.
+Qed.
+
+(* (7) entry-log lookup without the "raftIndex is exactly the first index of a rotated file" case (not today's code;
+   the class of the change): the first entry of a middle file is not found, its term is unavailable, and the leader
+   sends a snapshot (which carries no shard data) to a follower that only needs entries the leader still has *)
+Theorem lookup_without_exact_case_refuted :
+  exists E i snp, wf_files E /\ (log_first E <= i)%N /\ (i <= log_last E)%N /\
+    seek false E i <> SFound i /\ send_append false E snp (i + 1) = false /\ send_append true E snp (i + 1) = true.
+Proof.
+  exists (layout_files 3 1 8), 4%N, 7%N. vm_compute. repeat split; try reflexivity; try discriminate.
+Qed.
